@@ -13,6 +13,9 @@ claimed={
  "C10":dict(text="Bounded symbolic model checking with unbounded value domain: every scalar encoder/decoder pair is executed symbolically on a full-width symbolic value (all 2^64 etc. bit patterns; floats through the SMT FloatingPoint theory) behind a symbolic buffer prefix; value equality, encoder size = appended bytes = decoder size, and the stored-width x read-width matrix (value iff representable, else error) are discharged by z3.",
   design="§4 C10", technique="SSA symbolic execution + SMT bit-vector/floating-point (z3); full value range, byte-string lengths case-split; native replay of models",
   note=NOTE_COMMON+" Values unbounded (full width). Byte strings/strings: lengths 0,1,2,252..254 (thorough adds 31..33, 251..256, 65534..65537), contents symbolic in first/last 16 bytes. Outside: other lengths; inexact in-range float64->float32 narrowing."),
+ "C01":dict(text="Bounded symbolic model checking of writer->parser round trips: value-tree shapes are enumerated (<=3 free nodes + boundary shapes), and inside a shape every scalar kind (symbolic choice), every tag (symbolic uint16, pairwise distinct => all write orders and both table formats), every value (full width) and string contents are symbolic; read-back through typed accessors, field count, absence of any other tag, tag order and exact consumption are assertions discharged by z3. Table kernels push arbitrary sorted tables (all 16-bit tags x 32-bit offsets) through the real encode->decode->lookup.",
+  design="§4 C01", technique="SSA symbolic execution + SMT (z3) over enumerated shapes with symbolic tags/kinds/values; native replay of models",
+  note=NOTE_COMMON+" Shapes: root scalar (15 kinds); message/list with 0..2 (thorough 3) scalar children; nested message/list shapes; Any/Copy/Merge/Clone; 49 fields; 49/255/256 elements; depth 1/14/15; 64 KiB payload before a field; bytes/strings of length 0..2 elsewhere. Outside: larger trees, other payload lengths, user-supplied encoders."),
 }
 na={p:"check not yet built (work in progress, see DESIGN.md)" for p in props}
 na["C15"]="not applicable to solver-based checking: the parser is a goyacc LALR table interpreter over text/scanner building a pointer-rich tree; with symbolic characters the scanner's rune loops dominate, with symbolic tokens the deciding step would be enumeration, and the oracle would need a second parser (DESIGN.md §4 C15)"
